@@ -60,6 +60,10 @@ def program(draw):
     for _ in range(draw(st.integers(3, 5))):
         top = {"name": "VCALENDAR", "comps": [draw(c11.comp_filter(objs))]}
         filters.append(top)
+    for _ in range(draw(st.integers(0, 2))):
+        ff = draw(c11.focused_text_filter(objs))  # search by text, needle around an escaped character
+        if ff is not None:
+            filters.append(ff)
     # common client queries: events in a time range, open to-dos
     if draw(st.booleans()):
         filters.append({"name": "VCALENDAR", "comps": [{"name": "VEVENT", "time_range": ["20200101T000000Z", "20201231T000000Z"]}]})
